@@ -115,6 +115,25 @@ Definition reverse_array_for (f : A -> A) (c : list A) : outcome (list A * list 
   let refs := refs_of c in
   ra_loop (S (length refs)) f c refs (length refs) r_end [].
 
+(* ---- manual iteration.  `it++` is  { iterator orig = this-object; advance this-object; return orig; } : it hands back the old
+   iterator and advances exactly like ++it.  A hand-written loop that dereferences the returned old value
+   (auto o = it++; use *o) is therefore the loop above; so are for (..; it != e; ++it), for (..; it++),
+   std::for_each, and a loop continued with a copy of the iterator (an iterator is a value: position and index) ---- *)
+Definition e_post_incr (a : eiter) : eiter * eiter := (a, e_incr a).
+Fixpoint e_loop_post (fuel : nat) (f : nat -> A -> A) (c : list A) (b e : eiter) (visits : list (nat * A))
+  : outcome (list (nat * A) * list A) :=
+  match fuel with
+  | 0 => OutOfFuel
+  | S fuel' =>
+      if e_ne b e then
+        let (old, b') := e_post_incr b in
+        match e_deref c old with
+        | None => BadDeref
+        | Some (i, v) => e_loop_post fuel' f (upd c (e_pos old) (fun _ => f i v)) b' e (visits ++ [(i, v)])
+        end
+      else Done (visits, c)
+  end.
+
 (* ---- the same adaptor object used more than once.  An adaptor holds iterators of the range (positions) or
    the owned elements and nothing else: no counter, no "current" position, no cached result; each range-for
    statement starts from begin() = position 0 / index 0 again.  The scenarios below are therefore plain
